@@ -16,7 +16,7 @@ func init() {
 		ID:         "C06",
 		Level:      "other",
 		Technique:  "call-graph SCC recursion-guard, forward CFG search for unchecked negative lengths, depth push/pop pairing, dominance checklist over the hand-unrolled tag loops (static)",
-		Explain:    "Decides structural necessary conditions of C06 on every binary decoder: (1) every input-driven recursion cycle is cut by a dominating depth check; (2) no length returned by protowire.Consume* reaches a slice bound before its sign was tested (malformed input returns an error rather than panicking); (3) in the validator's explicit stack every depth decrement at a push is matched by an increment at the corresponding pop; (4) the hand-unrolled tag loops of the fast path (eager, lazy, single lazy field) use the tag's field number only after rejecting numbers outside [MinValidNumber, MaxValidNumber], reject a mismatched end-group tag, report success only when the group was closed, and report the consumed byte count.",
+		Explain:    "Decides structural necessary conditions of C06 on every binary decoder: (1) every input-driven recursion cycle is cut by a dominating depth check; (2) no length returned by protowire.Consume* reaches a slice bound before its sign was tested (malformed input returns an error rather than panicking); (3) in the validator's explicit stack every depth decrement at a push is matched by an increment at the corresponding pop; (4) the hand-unrolled tag loops of the fast path (eager, lazy, single lazy field) use the tag's field number only after rejecting numbers outside [MinValidNumber, MaxValidNumber], reject a mismatched end-group tag, report success only when the group was closed, and report the consumed byte count. Also decided: every ConsumeTag loop of the decoders (including the MessageSet decoder) rejects field numbers above MaxValidNumber before acting on them; the validator's required-field presence test accepts each validation type exactly on the wire type it was assigned for, so a record with the wrong wire type (kept as unknown by Unmarshal) never marks a required field present.",
 		NotCovered: "agreement of validator and decoder on every malformed buffer (behavioural); the validator's and the reflection decoder's own tag loops; panics from index arithmetic not tied to a Consume* length.",
 		Quick:      all("./proto", "./internal/impl"),
 		Thorough:   []ConfigLoad{{"default", []string{"./..."}}, {"legacy", []string{"./proto", "./internal/impl"}}},
@@ -26,6 +26,7 @@ func init() {
 			c.ruleDecodeSiblings("R-DECODE-SIBLINGS")
 			c.ruleDepthPair("R-DEPTH-PAIR", "internal/impl.(*MessageInfo).validate")
 			c.ruleConsumeTagRange("R-CONSUMETAG-RANGE", []string{"internal/impl", "proto", "internal/encoding/messageset"}, 4)
+			c.ruleValidateWireType("R-VALIDATE-WIRETYPE")
 			c.ruleNegLen("R-NEG-LEN", binaryDecoderPkgs, map[string]string{
 				"internal/encoding/messageset.ConsumeFieldValue nn": "re-parses the length prefix of `message`, which is b[:n:n] of a ConsumeBytes call that already succeeded in this function",
 				"internal/impl.equalUnknown n":                      "parses unknown-field bytes already stored in a message: they were validated by the decoder when stored (SetUnknown callers own validity); not decoder input",
